@@ -618,6 +618,39 @@ theorem WF_copyItems_mem (items : List Doc) (h : ∀ x ∈ items, WF x) : ∀ x 
   obtain ⟨y, hy, rfl⟩ := List.mem_map.1 hx
   exact WF_copyDoc y (h y hy)
 
+theorem WF_refUpd (f : Doc → Doc) (hf : ∀ v, WF v → WF (f v)) : ∀ (p : List Sel) (d : Doc), WF d → WF (refUpd p f d) := by
+  intro p
+  induction p with
+  | nil => intro d h; exact hf d h
+  | cons sel rest ih =>
+    intro d h
+    cases sel with
+    | key k =>
+      cases d with
+      | obj c s =>
+        have hw := (WF_obj c s).1 h
+        simp only [refUpd, WF_obj]
+        exact ⟨keysNodup_slotUpd _ _ _ hw.1, WFSlots_slotUpd _ _ _ hw.2 ih⟩
+      | _ => simpa [refUpd] using h
+    | idx i =>
+      cases d with
+      | arr items =>
+        simp only [refUpd, WF_arr]
+        exact setAtIdx_mem i _ items WF ((WF_arr _).1 h) ih
+      | obj c s =>
+        simp only [refUpd]
+        split
+        · rename_i k v hs
+          have hw := (WF_obj c s).1 h
+          have hv : WF v := (WFSlots_iff s).1 hw.2 (k, v) (mem_liveEntries_of_get s i (k, v) hs)
+          rw [WF_obj]
+          exact slots_set_same_key s i k v _ hs hw (ih v hv)
+        · exact h
+      | _ => simpa [refUpd] using h
+
+theorem WF_movedOut (d : Doc) (h : WF d) : WF (movedOut d) := by
+  cases d <;> simp_all [movedOut, WF, WFItems, WFSlots, keysNodup, keysOf, liveEntries]
+
 /-- the documents an operation carries as immediate operands (scalars and strings in every overload). -/
 def Op.payloadWF : Op → Prop
   | .assign _ x | .append _ x | .insert _ _ x => WF x
@@ -745,6 +778,35 @@ theorem step_WF (fmtReal : Nat → List Nat) (op : Op) (env : Env) (h : EnvWF en
       refine EnvWF_onTarget _ _ _ h (fun _ _ => ?_)
       unfold reservedDoc at hr
       split at hr <;> simp at hr <;> subst hr <;> simp [WF, WFItems, WFSlots, keysNodup, keysOf, liveEntries]
+  | container t s kind add mv =>
+    have h1 : EnvWF (onTarget env t id) := EnvWF_onTarget _ _ _ h (fun _ hv => hv)
+    simp only [step]
+    cases hg : getAt (envGet (onTarget env t id) s.root) s.path with
+    | none => exact h1
+    | some x =>
+      simp only []
+      split
+      · have hx : WF x := WF_getAt s.path _ x (h1 s.root) hg
+        have hpl : WF (if mv = true then x else copyDoc x) := by
+          cases mv
+          · simpa using WF_copyDoc x hx
+          · simpa using hx
+        have h2 : EnvWF (if mv = true then envSet (onTarget env t id) s.root
+            (modAt (envGet (onTarget env t id) s.root) s.path movedOut) else onTarget env t id) := by
+          cases mv
+          · simpa using h1
+          · simpa using EnvWF_envSet _ _ _ h1 (WF_modAt movedOut WF_movedOut s.path _ (h1 s.root))
+        refine EnvWF_envSet _ _ _ h2 (WF_refUpd _ ?_ t.path _ (h2 t.root))
+        intro v hv
+        cases add
+        · simpa using hpl
+        · simp only [if_true]
+          generalize (if mv = true then x else copyDoc x) = payload at hpl
+          cases payload with
+          | obj c sl => exact WF_addObj c sl v hpl hv
+          | arr items => exact WF_addArr items v ((WF_arr _).1 hpl) hv
+          | _ => exact WF_pushDoc _ v hpl hv
+      · exact h1
   | groupBy dest s k =>
     simp only [step]
     split
